@@ -31,6 +31,7 @@ type ModItem struct {
 	T     types.Type
 	E     SExpr // address expression (nil = whole heap / all maps of the type)
 	Elems bool  // E is a slice: its elements
+	Spare bool  // E is a slice: its spare capacity [len,cap)
 	Src   string
 }
 
@@ -588,7 +589,7 @@ func (e *Engine) resolveMods(c *Contract, perr func(rawLine, string, ...any)) {
 			c.Modifies = append(c.Modifies, &ModItem{Kind: "new", T: t, Src: s})
 		default:
 			// typed forms: obj[T](expr), elems[T](expr), map[T](expr)
-			for _, pf := range []string{"obj[", "elems[", "map["} {
+			for _, pf := range []string{"obj[", "elems[", "spare[", "map["} {
 				if strings.HasPrefix(s, pf) {
 					close := matchBracket(s, len(pf)-1)
 					if close < 0 || close+1 >= len(s) || s[close+1] != '(' || !strings.HasSuffix(s, ")") {
@@ -610,6 +611,8 @@ func (e *Engine) resolveMods(c *Contract, perr func(rawLine, string, ...any)) {
 						c.Modifies = append(c.Modifies, &ModItem{Kind: "heap", T: t, E: ex, Src: s})
 					case "elems[":
 						c.Modifies = append(c.Modifies, &ModItem{Kind: "heap", T: t, E: ex, Elems: true, Src: s})
+					case "spare[":
+						c.Modifies = append(c.Modifies, &ModItem{Kind: "heap", T: t, E: ex, Spare: true, Src: s})
 					case "map[":
 						c.Modifies = append(c.Modifies, &ModItem{Kind: "maps", T: t, E: ex, Src: s})
 					}
